@@ -394,7 +394,13 @@ def apply(an, st, call, bb):
       k, _ = _referent(an, st, call.args[0])
       if k is not None and st.m.get((k[0], k[1] + ('always',))) == iv(1, 1):
         okf = True
-    an.site(dk, bb, 'T', call.line, last, call.args, okf, '' if okf else f'call of panicking API {name}', call)
+    asm = an.site(dk, bb, 'T', call.line, last, call.args, okf, '' if okf else f'call of panicking API {name}', call)
+    if asm is not None and dk == 'unwrap' and call.args:
+      # reviewed entry with a result range: the unwrapped payload is known to lie in it
+      sub = dict(_payload_sub(an, st, call.args[0]))
+      cur = sub.get(())
+      sub[()] = iv(max(asm[0], cur[1]), min(asm[1], cur[2])) if is_int(cur) else iv(asm[0], asm[1])
+      return {'sub': sub, 'pure': True}
 
   # ---- comparisons through PartialOrd / PartialEq
   if last in CMP_METHODS and ('cmp::Partial' in name or 'cmp::Partial' in tname or 'cmp::impls' in name) and len(call.args) == 2:
@@ -547,6 +553,12 @@ def apply(an, st, call, bb):
   # ---- workspace callee: context-sensitive return summary
   raw = call.raw
   cb = an.F.bodies.get(raw) if raw else None
+  if cb is None:
+    # std blanket impls forwarding to a workspace impl (Into -> From): same argument, same result
+    from .facts import blanket_target
+    tgt = blanket_target(call.f, an.F.bodies)
+    if tgt is not None and call.f.get('fn') == 'std::convert::Into::into':
+      cb = an.F.bodies.get(tgt)
   if cb is not None:
     arg_sub = {}
     for i, a in enumerate(call.args):
